@@ -109,7 +109,16 @@ impl DealerSocketOutgoingProcessor {
               "[DealerProc {}] route_message failed (all peers full or no peers). Re-queuing.",
               self.core_handle
             );
-            self.pending_queue.lock().await.push_front(returned);
+            if !returned.is_empty() {
+              self.pending_queue.lock().await.push_front(returned);
+            } else {
+              // The timed send expired and consumed the message; re-queueing the empty batch
+              // that came back would put a bogus empty message on the wire.
+              tracing::warn!(
+                "[DealerProc {}] A queued message was dropped by an expired timed send.",
+                self.core_handle
+              );
+            }
             self
               .routing_in_progress
               .store(false, std::sync::atomic::Ordering::Release);
@@ -653,6 +662,9 @@ impl DealerSocket {
 
     match self.outgoing_orchestrator.route_message(zmtp_wire_frames, false).await {
       Ok(()) => Ok(()),
+      // A timed send that expired has consumed the message (an empty batch comes back): it was
+      // not delivered and cannot be queued, so the caller must be told instead of getting Ok.
+      Err((returned, e)) if returned.is_empty() => Err(e),
       Err((returned, _)) => {
         self.queue_message_or_error(returned, global_sndhwm, global_sndtimeo).await
       }
